@@ -165,7 +165,7 @@ def run(rep, tier, replay):
         rep.add("transitions", r3.generated)
         three = [b for b in b3 if len(b["toks"]) == 3]
         rep.cov["three_token_lines_in_model"] = len(three)
-        behs += three if len(three) <= 40000 else rng.sample(three, 40000)
+        behs += three if len(three) <= 15000 else rng.sample(three, 15000)
     if tier == "quick" and len(behs) > 6000:
         # all one-token cases, a seeded sample of the two-token ones
         one = [b for b in behs if len(b["toks"]) <= 1]
